@@ -233,7 +233,7 @@ def stream_cases(rnd, n, tmp):
         # has already been announced), followed by good records of that type: the failed record is not part of what was written
         plan = [(r, True) for r in recs0]
         lazy = any(callable(r) for r in recs0)
-        if si % 3 == 0 and si >= nfixed:
+        if si % 3 == 0 and si >= nfixed and not any(callable(r) for r in recs0):
             k = rnd.randint(0, len(plan))
             plan[k:k] = [(P([{"a": {1, 2}}], "bad", _generated=gen.GEN), False), (P([{"a": 1}], "good1", _generated=gen.GEN), True)]
             plan.append((P([], "good2", _generated=gen.GEN), True))
@@ -241,7 +241,7 @@ def stream_cases(rnd, n, tmp):
         written = [obs_key(r) for r in recs]
         # "+ignore": the same, written and read while a comparison-ignore setting is active (a de-duplicating copy loop):
         # an option of record COMPARISON must not reach the encoding
-        vias = ("lowlevel", "path", "pathgz") + (("lowlevel+ignore", "path+ignore") if si < nfixed or si % 4 == 1 else ())
+        vias = ("lowlevel", "path", "pathgz") + (("lowlevel+ignore", "path+ignore") if si < nfixed or si % 4 == 1 else ()) + (("dribble", "sessions") if si < nfixed or si % 3 == 2 else ())
         for via0 in vias:
             via, _, opt = via0.partition("+")
             cm = ignore_fields_for_comparison({"_generated", "a", "n", "path", "s"}) if opt else contextlib.nullcontext()
@@ -282,21 +282,48 @@ def _stream_case(via, via0, plan, recs, written, tmp, intent=None):
         if True:
             c = {"kind": "stream", "via": via0, "modelled": True, "n_written": len(recs), "n_read": -1, "order_ok": False, "all_identical": False, "frames": [], "hash_ok": False, "ref_decode_ok": False, "exc": "none",
                  "T": "varint", "islist": False, "cs": ["none"]}
-            made = []
+            made, made_keys, made_canon = [], [], []
+
+            def realise(r):
+                """a thunk is turned into its record only now; what it looks like AT THIS MOMENT is what gets written"""
+                if callable(r):
+                    r = r()
+                    made.append(r)
+                    made_keys.append(obs_key(r))
+                    made_canon.append(canon(r))
+                return r
+
             try:
-                if via == "lowlevel":
-                    b = io.BytesIO()
+                if via in ("lowlevel", "dribble", "sessions"):
+                    class _Sink(io.RawIOBase):
+                        """takes at most three bytes per call: every part of every frame needs several short writes in a row"""
+
+                        def __init__(self):
+                            self.data = bytearray()
+
+                        def writable(self):
+                            return True
+
+                        def write(self, bb):
+                            if len(self.data) > 50_000_000:
+                                raise IOError("runaway writer")
+                            bb = bytes(bb)[:3]
+                            self.data += bb
+                            return len(bb)
+
+                    b = io.BytesIO() if via != "dribble" else _Sink()
                     w = RecordStreamWriter(b)
-                    for r, ok in plan:
+                    half = len(plan) // 2
+                    for k, (r, ok) in enumerate(plan):
+                        if via == "sessions" and k == half and k:
+                            w.fp = None
+                            w = RecordStreamWriter(b)        # a second session appends to the same stream (own header, own registry)
                         try:
-                            if callable(r):          # created only now, written at once, and not kept by the caller
-                                r = r()
-                                made.append(r)
-                            w.write(r)
+                            w.write(realise(r))
                         except Exception:
                             if ok:
                                 raise
-                    data = b.getvalue()
+                    data = b.getvalue() if via != "dribble" else bytes(b.data)
                     w.fp = None
                     back = list(RecordStreamReader(io.BytesIO(data)))
                 else:
@@ -304,10 +331,7 @@ def _stream_case(via, via0, plan, recs, written, tmp, intent=None):
                     with RecordWriter(p) as w:
                         for r, ok in plan:
                             try:
-                                if callable(r):
-                                    r = r()
-                                    made.append(r)
-                                w.write(r)
+                                w.write(realise(r))
                             except Exception:
                                 if ok:
                                     raise
@@ -318,7 +342,7 @@ def _stream_case(via, via0, plan, recs, written, tmp, intent=None):
                     back = list(RecordReader(p))
                 if made:
                     recs = made
-                    written = [obs_key(r) for r in made]
+                    written = made_keys
                     c["n_written"] = len(made)
                 got = [obs_key(r) for r in back]
                 c["n_read"] = len(back)
@@ -359,7 +383,7 @@ def _stream_case(via, via0, plan, recs, written, tmp, intent=None):
                             ok &= (str(i[0]), i[1]) in descs
                 c["hash_ok"] = bool(ok)
                 recframes = [d for d in dec if d[0] in ("REC", "GRP")]
-                c["ref_decode_ok"] = len(recframes) == len(recs) and all(repr_eq(f, canon(r)) for f, r in zip(recframes, recs))
+                c["ref_decode_ok"] = len(recframes) == len(recs) and all(repr_eq(f, cr) for f, cr in zip(recframes, made_canon if made else [canon(r) for r in recs]))
                 # an independent reader resolves every identifier a record frame carries to the LATEST definition in front
                 # of it: that definition must be the descriptor (name, ordered fields) the record was created with
                 latest, ri = {}, 0
